@@ -441,7 +441,7 @@ pub open spec fn sharded_frame(old: World, fin: World, root: PathV, n: usize, na
              'final(w).atime_only(*old(w)) && forall|i: InodeId| #[trigger] old(w).inodes.contains_key(i) ==> '
              '(final(w).inodes[i].atime != old(w).inodes[i].atime ==> (old(w).files.contains_key(%s) && i == old(w).files[%s]) '
              '|| (old(w).files.contains_key(%s) && i == old(w).files[%s]))' % (P1, P1, P2, P2)),
-            ('C18 C05:error-is-an-invalid-name-or-a-real-fault', 'r.is_err() ==> %s || final(w).hard_faults > old(w).hard_faults' % REJ),
+            ('C18 C05 C06:error-is-an-invalid-name-or-a-real-fault', 'r.is_err() ==> %s || final(w).hard_faults > old(w).hard_faults' % REJ),
         ]
         if opname == 'get':
             ens += [
@@ -486,7 +486,7 @@ pub open spec fn sharded_frame(old: World, fin: World, root: PathV, n: usize, na
     MAINT_ENS = [
         INV, ('', 'final(w).kept(*old(w))'),
         ('C17 C07 C15 C16:maintenance-is-confined-to-the-shard-directories-of-this-cache', 'sharded_maint_frame(*old(w), *final(w), self.spec_root(), self.spec_n())'),
-        ('C05 C18:error-is-a-real-fault', 'r.is_err() ==> final(w).hard_faults > old(w).hard_faults'),
+        ('C05 C18 C06:error-is-a-real-fault', 'r.is_err() ==> final(w).hard_faults > old(w).hard_faults'),
         ('C06:linear-in-the-number-of-directory-entries', 'final(w).steps <= old(w).steps + 2 * (4 + 3 * (final(w).listed - old(w).listed)) && final(w).opens <= old(w).opens + 2'),
     ]
     fm.contract(requires=[('', 'old(w).inv() && self.rw(*old(w)) && shard.at(self.spec_root()) && shard.id < self.spec_n()')], ensures=MAINT_ENS)
@@ -517,7 +517,7 @@ pub open spec fn sharded_frame(old: World, fin: World, root: PathV, n: usize, na
                  ('C02 C13 C01:files-inside-the-temp-dir-are-invisible-to-lookups',
                   'r.is_ok() ==> forall|links: Map<PathV, InodeId>, nm: Seq<u8>, i: InodeId, k: Key| #[trigger] sharded_lookup(links.insert(child(cowv(r.unwrap()), nm), i), self.spec_root(), self.spec_n(), k) '
                   '== sharded_lookup(links, self.spec_root(), self.spec_n(), k)'),
-                 ('C02 C16:the-temp-dir-is-a-kismet-temp-directory-outside-every-read-only-root',
+                 ('C02 C16 C15:the-temp-dir-is-a-kismet-temp-directory-outside-every-read-only-root',
                   'r.is_ok() ==> final(w).is_temp_dir(cowv(r.unwrap())) && !final(w).under_ro(cowv(r.unwrap())) && forall|nm: Seq<u8>| !final(w).under_ro(#[trigger] child(cowv(r.unwrap()), nm))'),
                  ])
     td.body_start('broadcast use group_sharded;')
@@ -554,7 +554,7 @@ pub open spec fn sharded_frame(old: World, fin: World, root: PathV, n: usize, na
                  '&& final(w).published == old(w).published' % BADNAME),
                 ('C12 C16:an-entry-is-only-ever-stored-under-one-of-its-two-candidate-shards',
                  'forall|p: PathV| #[trigger] final(w).files.contains_key(p) && !old(w).files.contains_key(p) ==> p == %s || p == %s' % (P1, P2)),
-                ('C18 C05:without-a-real-fault-a-failed-write-published-nothing', 'r.is_err() && final(w).hard_faults == old(w).hard_faults ==> final(w).published == old(w).published'),
+                ('C18 C05 C06:without-a-real-fault-a-failed-write-published-nothing', 'r.is_err() && final(w).hard_faults == old(w).hard_faults ==> final(w).published == old(w).published'),
                 ('C01 C03 C19:a-write-never-changes-the-bytes-of-any-file',
                  'bytes_kept(*old(w), *final(w))'),
                 ('C13 C11 C18:success-means-a-publication-happened' + ('' if opname == 'set' else '-unless-the-key-was-already-bound'),
@@ -567,7 +567,7 @@ pub open spec fn sharded_frame(old: World, fin: World, root: PathV, n: usize, na
                 ('C11 C18:success-consumes-the-source', 'r.is_ok() ==> old(w).files.contains_key(pv(value)) && !final(w).files.contains_key(pv(value))'),
                 ('C17 C15 C16:everything-that-changes-is-inside-the-shard-directories-of-this-cache',
                  'sharded_frame(*old(w), *final(w), self.spec_root(), self.spec_n(), str_bytes(key.name), pv(value))'),
-                ('C18 C05:error-is-explained',
+                ('C18 C05 C06:error-is-explained',
                  'r.is_err() ==> %s || final(w).hard_faults > old(w).hard_faults || !final(w).files.contains_key(pv(value))' % REJ),
                 ('C06 C20:filesystem-calls-are-a-constant-plus-three-per-directory-item-read-by-maintenance',
                  'final(w).steps <= old(w).steps + 2 * (%d + 3 * (final(w).listed - old(w).listed)) && final(w).opens <= old(w).opens + 4' % (nsteps + 8)),
